@@ -216,6 +216,7 @@ def _expand_partial_output(partial, sl_map, output_unroll_info):
     if not partial.struct.t:
         return partial  # empty tensor: nothing to expand
 
+    partial = partial.consume_transpose()  # blocks below are addressed in native order of legs
     config = partial.config
     backend = config.backend
     nsym = config.sym.NSYM
